@@ -10,6 +10,7 @@ import (
 	"strconv"
 	"strings"
 	"sync"
+	"sync/atomic"
 	"testing"
 	"time"
 
@@ -417,6 +418,156 @@ func runSenderHistory(r *h.Report, d *h.Driver, ops []string, corpus bool) {
 				}
 			}
 			kind = "notify:answered-in-flight"
+		case "nest":
+			// nest <k1> <k2> [<k3>]: OVERLAPPING sends, scheduled through the connection's writer: send k1 has drawn its
+			// counter and is about to hand its bytes to the connection when send k2 runs to completion on another
+			// goroutine (and k3 inside k2 likewise). Event order of Spine.Ctr: take 1, take 2, emit 2, emit 1.
+			// kinds: o<k> other send, n notify, r<d>.<c> request (never inside a request: it would wait for the mutex)
+			kinds := f[1:]
+			seen := make([]uint64, len(kinds)) // counter in the bytes each call handed over (0: wrote nothing)
+			ret := make([]string, len(kinds))
+			lns := make([]string, len(kinds))
+			hids := make([]int, len(kinds))
+			var order []int // emission order
+			var run func(i int)
+			run = func(i int) {
+				fired := false
+				sw.w.pre = func(m []byte) {
+					sw.w.pre = nil
+					fired = true
+					seen[i] = sndCounterOf(m)
+					if i+1 < len(kinds) {
+						fin := make(chan struct{})
+						go func() { defer close(fin); run(i + 1) }()
+						select {
+						case <-fin:
+						case <-time.After(20 * time.Second):
+							ret[i+1] = "blocked"
+						}
+					}
+					order = append(order, i)
+				}
+				k := kinds[i]
+				switch k[0] {
+				case 'o':
+					n, _ := strconv.Atoi(k[1:])
+					lns[i] = "other"
+					var err error
+					switch n % 4 {
+					case 0:
+						err = sw.s.ResultSuccess(reqHdr(uint64(n)), sw.local)
+					case 1:
+						err = sw.s.ResultError(reqHdr(uint64(n)), sw.local, model.NewErrorTypeFromString("x"))
+					case 2:
+						err = sw.s.Reply(reqHdr(uint64(n)), sw.local, sndCmd(n))
+					case 3:
+						_, err = sw.s.Write(sw.local, dests[n%3], sndCmd(n))
+					}
+					if ret[i] == "" {
+						ret[i] = fmt.Sprint(seen[i])
+						if err != nil {
+							ret[i] = "error " + err.Error()
+						}
+					}
+				case 'n':
+					lns[i] = "notify"
+					c, err := sw.s.Notify(sw.local, dests[0], sndCmd(len(done)+i))
+					if ret[i] == "" {
+						ret[i] = ctrS(c)
+						if err != nil || c == nil || uint64(*c) != seen[i] {
+							ret[i] = fmt.Sprintf("error %v returned %s wrote %d", err, ctrS(c), seen[i])
+						}
+					}
+				case 'r':
+					dc := strings.Split(k[1:], ".")
+					di, _ := strconv.Atoi(dc[0])
+					ci, _ := strconv.Atoi(dc[1])
+					cmd := []model.CmdType{sndCmd(ci)}
+					dest := dests[di%len(dests)]
+					hids[i] = sw.hashID(dest, cmd)
+					lns[i] = fmt.Sprintf("req %d", hids[i])
+					c, err := sw.s.Request(model.CmdClassifierTypeRead, sw.local, dest, false, cmd)
+					if ret[i] == "" {
+						ret[i] = fmt.Sprintf("%s %d", ctrS(c), h.B2i(seen[i] != 0))
+						if err != nil || (seen[i] != 0 && (c == nil || uint64(*c) != seen[i])) {
+							ret[i] = fmt.Sprintf("error %v returned %s wrote %d", err, ctrS(c), seen[i])
+						}
+					}
+				}
+				if !fired {
+					// the call wrote nothing (a withheld request): the remaining sends run after it
+					sw.w.pre = nil
+					if i+1 < len(kinds) {
+						run(i + 1)
+					}
+				}
+			}
+			run(0)
+			wire := sw.wire()
+			done = append(done, op)
+			// SPEC: uniqueness on the connection, and the bytes reach the connection in the order the writer was entered last-in first-out
+			var want []uint64
+			for _, i := range order {
+				want = append(want, seen[i])
+			}
+			if fmt.Sprint(wire) != fmt.Sprint(want) {
+				r.SpecFail("datagram-carries-another-counter-than-drawn", done, fmt.Sprintf("overlapping sends handed over %v, the connection recorded %v", want, wire))
+			}
+			for _, c := range wire {
+				if sp.seen[c] {
+					r.SpecFail("counter-reused", done, fmt.Sprintf("counter %d written twice (overlapping sends)", c))
+				}
+				sp.seen[c] = true
+			}
+			// counters are drawn in call order: whoever entered first has the smaller counter, and the step as a whole continues the sequence
+			prevC := uint64(0)
+			if n := len(sp.wire); n > 0 {
+				prevC = sp.wire[n-1]
+			}
+			for i := range kinds {
+				if seen[i] == 0 {
+					continue
+				}
+				if seen[i] <= prevC {
+					r.SpecFail("counter-not-increasing", done, fmt.Sprintf("send %d of the overlapping group drew %d after %d", i, seen[i], prevC))
+				}
+				prevC = seen[i]
+			}
+			if prevC != 0 {
+				sp.wire = append(sp.wire, prevC)
+			}
+			for i, k := range kinds {
+				switch {
+				case k[0] == 'n' && seen[i] != 0:
+					sp.notifies = append(sp.notifies, seen[i])
+				case k[0] == 'r':
+					prev, pending := sp.unanswered[hids[i]]
+					if seen[i] == 0 && (!pending || !strings.HasPrefix(ret[i], fmt.Sprint(prev)+" ")) && !strings.HasPrefix(ret[i], "error") && ret[i] != "blocked" {
+						key := "withheld-without-identical-unanswered"
+						if c, _ := strconv.Atoi(strings.Fields(ret[i])[0]); sp.overtaken[uint64(c)] {
+							key = "answer-overtakes-insert"
+						}
+						r.SpecFail(key, done, fmt.Sprintf("request hash %d withheld (%s) inside an overlapping group; unanswered: %v %v", hids[i], ret[i], prev, pending))
+					}
+					if seen[i] != 0 {
+						sp.unanswered[hids[i]] = seen[i]
+					}
+				}
+			}
+			kind = "nest"
+			// model: the calls in the order they were entered
+			line, impl = lns[0], ret[0]
+			for i := 1; i < len(kinds); i++ {
+				if diverged {
+					break
+				}
+				r.Eval("nest:inner", "")
+				if wantA := d.Ask(line); impl != wantA {
+					r.Mismatch(done, impl, wantA, "sender op "+op+" as "+line)
+					diverged = true
+				}
+				line, impl = lns[i], ret[i]
+			}
 		case "get":
 			c, _ := strconv.Atoi(f[1])
 			line = op
@@ -508,9 +659,29 @@ func genSenderHistory(rng interface{ Intn(int) int }, n int) []string {
 				lo = issued - 12
 			}
 			ops = append(ops, fmt.Sprintf("resp %d", 1+lo+rng.Intn(issued-lo+2)))
-		case x < 80:
+		case x < 76:
 			ops = append(ops, fmt.Sprintf("other %d", rng.Intn(8)))
 			issued++
+		case x < 80:
+			// two or three overlapping sends; a request only outermost or inside a non-request
+			pick := func(allowReq bool) string {
+				switch y := rng.Intn(5); {
+				case y < 2:
+					return fmt.Sprintf("o%d", rng.Intn(8))
+				case y < 4 || !allowReq:
+					return "n"
+				}
+				return fmt.Sprintf("r%d.%d", rng.Intn(nd), rng.Intn(nc))
+			}
+			k1 := pick(true)
+			k2 := pick(k1[0] != 'r')
+			op := "nest " + k1 + " " + k2
+			issued += 2
+			if rng.Intn(2) == 0 {
+				op += " " + pick(k1[0] != 'r' && k2[0] != 'r')
+				issued++
+			}
+			ops = append(ops, op)
 		case x < 92:
 			if rng.Intn(3) == 0 {
 				ops = append(ops, "notifyq")
@@ -553,6 +724,8 @@ func TestSender(t *testing.T) {
 	// a request answered while it is being written, then the identical request (known finding answer-overtakes-insert
 	// on the member as written), then a response to ANOTHER open request inside the window, which is harmless
 	runSenderHistory(r, d, []string{"reqf 0 1 0", "req 0 1", "resp 1", "req 0 1", "req 0 2", "reqf 0 3 3", "req 0 2", "req 0 3", "reqf 0 1 0", "reqf 0 1 0"}, true)
+	// overlapping sends of every kind, scheduled through the writer: counters in call order, bytes last-in first-out
+	runSenderHistory(r, d, []string{"nest o0 o1", "nest o2 o3 n", "nest n n n", "nest r0.1 o3", "nest r0.1 n", "nest n r0.2 o1", "nest o3 r0.2 n", "req 0 1", "req 0 2", "nest r0.3 n o2", "get 3", "get 6", "resp 9", "nest r0.1 o0"}, true)
 	// 30 requests each answered in flight: the stale entries stay within the bound, the oldest are evicted
 	var stale []string
 	for i := 0; i < 30; i++ {
@@ -654,19 +827,38 @@ func TestSender(t *testing.T) {
 	r.Floor("withheld requests", r.Dist["req:withheld"], r.Dist["req:withheld"]+r.Dist["req:sent"], 0.05)
 	r.Floor("responses that hit", r.Dist["resp:hit"], r.Dist["resp:hit"]+r.Dist["resp:miss"], 0.05)
 	r.Floor("lookups that hit", r.Dist["get:hit"], r.Dist["get:hit"]+r.Dist["get:miss"], 0.05)
-	r.Floor("requests answered while in flight", r.Dist["req:sent:answered-in-flight"], r.Dist["req:withheld"]+r.Dist["req:sent"]+r.Dist["req:sent:answered-in-flight"], 0.02)
+	r.Floor("requests answered while in flight", r.Dist["req:sent:answered-in-flight"], r.Dist["req:sent"]+r.Dist["req:sent:answered-in-flight"], 0.03)
 
-	// concurrent senders: counters on the wire must be pairwise distinct (monitor only)
+	// concurrent senders on the real Sender (monitor; the all-schedules claim rests on c13_unique / c13_monotone_nonoverlap
+	// and on the deterministic overlapping groups above): every way of sending, responses and lookups from 8 goroutines.
+	//  - counters on the connection pairwise distinct;
+	//  - "counters strictly increase in issue order whenever calls do not overlap": every call is stamped with a logical
+	//    clock before it starts and after it returns; if A returned before B started, A's counter is below B's;
+	//  - concurrent identical requests: one datagram, one counter, whatever the schedule (Request is one critical section).
 	conc := h.Scale(20, 200)
+	type sndCall struct {
+		start, end int64
+		ctr        uint64
+		what       string
+	}
 	for round := 0; round < conc; round++ {
 		sw := newSndWorld()
+		var tick atomic.Int64
+		var lastBy sync.Map // goroutine -> counter it handed to the connection last
+		sw.w.pre = func(m []byte) { lastBy.Store(h.Goid(), sndCounterOf(m)) }
+		calls := make([][]sndCall, 8)
 		var wg sync.WaitGroup
 		for g := 0; g < 8; g++ {
 			wg.Add(1)
 			go func(g int) {
 				defer wg.Done()
+				me := h.Goid()
+				hdr := &model.HeaderType{AddressSource: h.FA("rem", []uint{1}, 1), AddressDestination: sw.local, MsgCounter: util.Ptr(model.MsgCounterType(g))}
 				for i := 0; i < 50; i++ {
-					switch (g + i) % 4 {
+					lastBy.Delete(me)
+					k := (g*7 + i + round) % 12
+					start := tick.Add(1)
+					switch k {
 					case 0:
 						sw.s.Request(model.CmdClassifierTypeRead, sw.local, h.FA("rem", []uint{1}, uint(g)), false, []model.CmdType{sndCmd(i)})
 					case 1:
@@ -674,19 +866,98 @@ func TestSender(t *testing.T) {
 					case 2:
 						sw.s.Write(sw.local, h.FA("rem", []uint{1}, 1), sndCmd(i))
 					case 3:
-						sw.s.ResultSuccess(&model.HeaderType{AddressSource: sw.local, AddressDestination: sw.local, MsgCounter: util.Ptr(model.MsgCounterType(i))}, sw.local)
+						sw.s.ResultSuccess(hdr, sw.local)
+					case 4:
+						sw.s.ResultError(hdr, sw.local, model.NewErrorTypeFromString("x"))
+					case 5:
+						sw.s.Reply(hdr, sw.local, sndCmd(i))
+					case 6:
+						sw.s.Subscribe(sw.local, h.FA("rem", []uint{1}, uint(i%5)), model.FeatureTypeTypeLoadControl)
+					case 7:
+						sw.s.Bind(sw.local, h.FA("rem", []uint{1}, uint(i%5)), model.FeatureTypeTypeLoadControl)
+					case 8:
+						sw.s.Unsubscribe(sw.local, h.FA("rem", []uint{1}, uint(i%5)))
+					case 9:
+						sw.s.Unbind(sw.local, h.FA("rem", []uint{1}, uint(i%5)))
+					case 10:
+						sw.s.ProcessResponseForMsgCounterReference(util.Ptr(model.MsgCounterType(1 + (g*50+i)%97)))
+					case 11:
+						sw.s.DatagramForMsgCounter(model.MsgCounterType(1 + (g*50+i)%97))
+					}
+					end := tick.Add(1)
+					if c, ok := lastBy.Load(me); ok && c.(uint64) != 0 {
+						calls[g] = append(calls[g], sndCall{start, end, c.(uint64), fmt.Sprintf("g%d/%d kind %d", g, i, k)})
 					}
 				}
 			}(g)
 		}
 		wg.Wait()
+		what := []string{fmt.Sprintf("concurrent round %d: 8 goroutines x 50 operations of 12 kinds", round)}
 		cs := sw.wire()
 		sort.Slice(cs, func(i, j int) bool { return cs[i] < cs[j] })
 		for i := 1; i < len(cs); i++ {
 			if cs[i] == cs[i-1] {
-				r.SpecFail("counter-reused", []string{fmt.Sprintf("concurrent round %d: 8 goroutines x 50 sends", round)}, fmt.Sprintf("counter %d written twice", cs[i]))
+				r.SpecFail("counter-reused", what, fmt.Sprintf("counter %d written twice", cs[i]))
+			}
+		}
+		var all []sndCall
+		for _, c := range calls {
+			all = append(all, c...)
+		}
+		if len(all) != len(cs) {
+			r.SpecFail("datagram-carries-another-counter-than-drawn", what, fmt.Sprintf("%d sends handed bytes over, %d datagrams recorded", len(all), len(cs)))
+		}
+		// sweep in start order, keeping the largest counter among the calls that have already returned
+		byStart := append([]sndCall{}, all...)
+		sort.Slice(byStart, func(i, j int) bool { return byStart[i].start < byStart[j].start })
+		byEnd := append([]sndCall{}, all...)
+		sort.Slice(byEnd, func(i, j int) bool { return byEnd[i].end < byEnd[j].end })
+		var maxDone sndCall
+		j := 0
+		for _, b := range byStart {
+			for j < len(byEnd) && byEnd[j].end < b.start {
+				if byEnd[j].ctr > maxDone.ctr {
+					maxDone = byEnd[j]
+				}
+				j++
+			}
+			if maxDone.ctr >= b.ctr {
+				r.SpecFail("counter-not-increasing", what, fmt.Sprintf("%s returned (clock %d) with counter %d before %s started (clock %d), which got counter %d", maxDone.what, maxDone.end, maxDone.ctr, b.what, b.start, b.ctr))
+				break
 			}
 		}
 		r.Eval("concurrent-round", "")
+
+		// 8 goroutines issue the same 6 requests at once, nothing is answered
+		sw = newSndWorld()
+		got := make([][]uint64, 8)
+		for g := 0; g < 8; g++ {
+			wg.Add(1)
+			go func(g int) {
+				defer wg.Done()
+				for i := 0; i < 6; i++ {
+					q := (i + g) % 6
+					c, _ := sw.s.Request(model.CmdClassifierTypeRead, sw.local, h.FA("rem", []uint{1}, uint(q)), false, []model.CmdType{sndCmd(q)})
+					if c != nil {
+						got[g] = append(got[g], uint64(q)<<32|uint64(*c))
+					}
+				}
+			}(g)
+		}
+		wg.Wait()
+		if n := len(sw.wire()); n != 6 {
+			r.SpecFail("withheld-without-identical-unanswered", what, fmt.Sprintf("8 goroutines issued the same 6 unanswered requests concurrently: %d datagrams written, not 6 (a request was withheld without its twin being on the connection, or written twice)", n))
+		}
+		ctrOf := map[uint64]uint64{}
+		for g := range got {
+			for _, qc := range got[g] {
+				q, c := qc>>32, qc&0xffffffff
+				if p, ok := ctrOf[q]; ok && p != c {
+					r.SpecFail("withheld-wrong-counter", what, fmt.Sprintf("concurrent identical requests %d returned counters %d and %d", q, p, c))
+				}
+				ctrOf[q] = c
+			}
+		}
+		r.Eval("concurrent-identical-requests", "")
 	}
 }
